@@ -159,6 +159,24 @@ class Root:
         return "%s:%s" % (self.kind, self.desc)
 
 
+TRANSPARENT = ("Deref::deref", "DerefMut::deref_mut", "Pin::as_mut", "Pin::get_mut", "Pin::as_ref", "Pin::get_ref",
+               "Pin::get_unchecked_mut", "Pin::into_ref", "Pin::new", "Pin::new_unchecked", "Pin::into_inner",
+               "Pin::set", "AsMut::as_mut", "AsRef::as_ref", "Borrow::borrow", "BorrowMut::borrow_mut")
+
+
+def is_transparent(site):
+    """Calls through which a field path of the result is the same field path of the receiver:
+    Deref / Pin plumbing and pin-project's struct `project()` (projection structs keep field names)."""
+    n = norm(site.name)
+    for t in TRANSPARENT:
+        if n.endswith("::" + t) or n.endswith(">::" + t.split("::")[-1]) and t.split("::")[0] in n:
+            return True
+    last = n.split("::")[-1]
+    if last in ("project", "project_ref") and "::_::<impl " in n:
+        return True
+    return False
+
+
 # ---------------------------------------------------------------- function model
 
 class Fn:
@@ -230,7 +248,7 @@ class Fn:
             succ[b] = seen
         self.succ_all = succ
         # normal successors: drop compiler-made unreachable blocks and cleanup blocks
-        self.succ = [[s for s in ss if s not in unreachable and self.blocks[s]["cleanup"] != "true"] for ss in succ]
+        self.succ = [[s for s in ss if s not in unreachable and not self.blocks[s]["cleanup"]] for ss in succ]
         pred = [[] for _ in range(self.n)]
         for b, ss in enumerate(self.succ):
             for s in ss:
@@ -379,7 +397,7 @@ class Fn:
         if self._defs is None:
             d = defaultdict(list)
             for b, blk in enumerate(self.blocks):
-                if blk["cleanup"] == "true":
+                if blk["cleanup"]:
                     continue
                 for i, s in enumerate(blk["s"]):
                     if s["k"] == "assign":
@@ -467,6 +485,7 @@ class Fn:
                     a = r.get("adt")
                     if a is None or not (a == adt or a.endswith("::" + adt)):
                         continue
+
                 if variant is not None and r.get("v") != variant:
                     continue
                 out.append((b, i, s))
@@ -654,10 +673,11 @@ class Fn:
                         pass
                     roots.add(Root("call", "%s@bb%d" % (norm(site.name), site.bb), site=site, fields=fields))
                     if through_calls and not (stop_at_call and stop_at_call(site)):
-                        for a in site.args:
+                        carry = fields if (site.args and is_transparent(site)) else ()
+                        for ai, a in enumerate(site.args):
                             ap = op_place(a)
                             if ap is not None:
-                                work.append((ap["l"], self._fields(ap)))
+                                work.append((ap["l"], self._fields(ap) + (carry if ai == 0 else ())))
                             else:
                                 k = a.get("k", {})
                                 if "closure" in k or k.get("ty", "").startswith("{closure"):
@@ -706,8 +726,11 @@ class Fn:
                             sel = None
                     chosen = [ops[sel]] if sel is not None else ops
                     sub = rest[1:] if sel is not None else ()
-                    if not ops:
-                        roots.add(Root("agg", "%s::%s" % (r.get("adt"), r.get("v")) if "adt" in r else "unit"))
+                    for kk in ("closure", "coroutine", "coroutine_closure"):
+                        if kk in r:
+                            roots.add(Root("closure", r[kk], key=r[kk]))
+                    if not ops and "adt" in r:
+                        roots.add(Root("agg", "%s::%s" % (r.get("adt"), r.get("v"))))
                     for o in chosen:
                         q = op_place(o)
                         if q is None:
@@ -844,7 +867,7 @@ class Facts:
         cg = defaultdict(set)
         for k, f in self.fns.items():
             for c in f.calls(noise=True):
-                if c.res and c.t.get("resl") == "true" and c.res in self.fns:
+                if c.res and c.t.get("resl") and c.res in self.fns:
                     cg[k].add(c.res)
                 elif c.decl:
                     # unresolved trait method: class-hierarchy expansion over local impls
@@ -1015,3 +1038,52 @@ def const_of(operand):
     if not k:
         return None
     return k.get("item") or k.get("v")
+
+
+CMP = {"lt": "Lt", "le": "Le", "gt": "Gt", "ge": "Ge", "eq": "Eq", "ne": "Ne"}
+
+
+def returned_comparison(fn):
+    """If fn's return value is a single comparison, return (op, a_operand, b_operand) with op in Lt/Le/Gt/Ge/Eq/Ne.
+    Handles PartialOrd/PartialEq method calls and primitive BinaryOp."""
+    rets = assigns_to_return(fn, fn.live)
+    if len(rets) != 1:
+        return None
+    k, b, x = rets[0]
+    if k == "call":
+        site = CallSite(fn, b, x)
+        nm = norm(site.name).split("::")[-1]
+        if nm in CMP and site.matches(r"cmp::Partial(Ord|Eq)|PartialOrd|PartialEq"):
+            return (CMP[nm], site.args[0], site.args[1])
+        return None
+    r = x["r"]
+    if r["k"] == "binop" and r["op"] in CMP.values():
+        return (r["op"], r["a"], r["b"])
+    if r["k"] == "use":
+        p = op_place(r["o"])
+        if p is not None and not p["p"]:
+            d = fn.unique_def(p["l"])
+            if d and d[0] == "call":
+                site = CallSite(fn, d[1], d[2])
+                nm = norm(site.name).split("::")[-1]
+                if nm in CMP:
+                    return (CMP[nm], site.args[0], site.args[1])
+            if d and d[0] == "stmt" and d[3]["r"]["k"] == "binop":
+                r2 = d[3]["r"]
+                return (r2["op"], r2["a"], r2["b"])
+    return None
+
+
+def closure_arg_of(fn, site, index):
+    """Key of the closure passed as argument `index` of a call site (closure aggregate or const closure)."""
+    a = site.args[index]
+    k = a.get("k")
+    if k and k.get("closure"):
+        return k["closure"]
+    p = op_place(a)
+    if p is None:
+        return None
+    for r in fn.roots(a, through_calls=False):
+        if r.kind == "closure":
+            return r.key
+    return None
